@@ -56,7 +56,7 @@ func main() {
 			"D1": "return the injector's chosen error variable", "D2": "universe identifiers", "D3": "dot-imported", "D4": "validate the first argument of wire.Struct",
 			"D6": "nil struct type in the wire.FieldsOf", "D7": "zero value of unsafe.Pointer", "D8": "match struct field names exactly", "D9": "named function types",
 			"D10": "copy type parameters", "D11": "multi-value var spec", "D12": "reject wire.InterfaceValue(new(I), nil)", "D13": "wire diff exits 2", "D14": "wire check reports the injector-level errors",
-			"D16": "reject providers and fields the injector's package cannot refer to", "D19": "ProviderSet variable not built by wire.NewSet", "D17": "renames type-switch variables", "D21": "renames type-switch variables", "D22": "header-only wire_gen.go", "D23": "reported at their use, not at their declaration", "D24": "reported where the user refers to them", "D25": "report problems where the user writes them", "D26": "identifiers without an object no longer crash", "D27": "shadows a package-level provider or provider set", "D28": "blank struct fields are neither injected", "D29": "packages without non-test Go files are skipped", "D30": "ignore type declarations whose type is wire.ProviderSet", "D31": "a package named init is imported under another name", "D32": "marker variable in the user's set are reported at that set", "D33": "parenthesised forms of the wire.Build call", "D34": "-tags accepts a comma-separated list",
+			"D16": "reject providers and fields the injector's package cannot refer to", "D19": "ProviderSet variable not built by wire.NewSet", "D17": "renames type-switch variables", "D21": "renames type-switch variables", "D22": "header-only wire_gen.go", "D23": "reported at their use, not at their declaration", "D24": "reported where the user refers to them", "D25": "report problems where the user writes them", "D26": "identifiers without an object no longer crash", "D27": "shadows a package-level provider or provider set", "D28": "blank struct fields are neither injected", "D29": "packages without non-test Go files are skipped", "D30": "ignore type declarations whose type is wire.ProviderSet", "D31": "a package named init is imported under another name", "D32": "marker variable in the user's set are reported at that set", "D33": "parenthesised forms of the wire.Build call", "D34": "-tags accepts a comma-separated list", "D35": "predeclared identifier that the injector's package redeclares",
 		}
 		commits := map[string]string{}
 		for k, sub := range subj {
